@@ -42,7 +42,7 @@ func main() {
 	apply := flag.Int("apply", -1, "apply site N")
 	flag.Parse()
 	var sites []site
-	for _, pkg := range []string{"common", "openflow13", "protocol", "util"} {
+	for _, pkg := range []string{"common", "ofbase", "openflow13", "protocol", "util"} {
 		files, _ := filepath.Glob(filepath.Join(*repo, pkg, "*.go"))
 		sort.Strings(files)
 		for _, f := range files {
